@@ -16,7 +16,13 @@ changes; a local commit moves only the local branch; update leaves local ==
 master; a pull that has something to pull leaves local == master, a diverged
 pull is refused without change; commits to M move only M.  Fault part: a fault at
 every master-side transport operation of a bound commit (three scenarios): the
-local tip may become the new revision only if the master's already is.
+local tip may become the new revision only if the master's already is.  Race part
+(environment-answer exploration): at every k-th call of the master branch's
+lock_write / last_revision_info during a bound commit through C1, a complete bound
+commit through C2 is executed first (unless the master is physically locked, when
+the second committer would wait): afterwards the master's left-hand history holds
+every revision whose commit returned, successful committers' local tips are theirs,
+and a refused commit changed neither its local branch nor the master.
 """
 import os
 
@@ -533,6 +539,121 @@ def _fault_work(chunk):
     return acc
 
 
+# ---- a second committer finishing inside the first committer's commit ---------------------------------
+
+RACE = {"armed": False, "point": None, "k": None, "count": 0, "fired": None, "world": None, "b": None}
+RACE_POINTS = ("lock_write", "last_revision_info")
+RACE_SCENARIOS = [
+    (),
+    (("commitM",), ("update", 1), ("update", 2)),
+]
+
+
+def _install_race_hooks(w):
+    """Wrap lock_write / last_revision_info of the master's branch class: at the k-th call on a master
+    object during committer A's commit, a complete commit through checkout 2 runs first - unless the
+    master is physically locked at that moment (the second committer would then simply wait for A)."""
+    cls = type(w.master())
+    if getattr(cls, "_verif_race", False):
+        return
+    for point in RACE_POINTS:
+        orig = getattr(cls, point)
+
+        def wrapper(self, *a, _orig=orig, _point=point, **kw):
+            r = RACE
+            if r["armed"] and r["point"] == _point and self.base.rstrip("/") == r["world"].murl.rstrip("/"):
+                i = r["count"]
+                r["count"] += 1
+                if i == r["k"]:
+                    r["armed"] = False
+                    wld = r["world"]
+                    held = [p for p in wld.store.walk("m") if p.endswith("/lock/held")]
+                    if held:
+                        r["fired"] = "blocked"
+                    else:
+                        r["fired"] = "ran"
+                        tip_log = list(wld.tiplog)
+                        r["b"] = execute(wld, ("commit", 2), r["step"] + 1)
+                        wld.tiplog[:0] = tip_log
+            return _orig(self, *a, **kw)
+        setattr(cls, point, wrapper)
+    cls._verif_race = True
+
+
+def _lefthand(w, tip):
+    m = w.master()
+    with m.lock_read():
+        graph = m.repository.get_graph()
+        return list(graph.iter_lefthand_ancestry(tip, [NULL]))
+
+
+def _race_work(chunk):
+    acc = par.Acc()
+    w = world()
+    _install_race_hooks(w)
+    for seq, point in chunk:
+        model = replay_seq(w, seq, report=acc)
+        if model is None:
+            continue
+        snap = w.snapshot()
+        base = w.observe()
+        k = 0
+        while True:
+            w.restore(snap)
+            RACE.update(armed=True, point=point, k=k, count=0, fired=None, world=w, b=None, step=len(seq) + 1)
+            try:
+                status, err, new = execute(w, ("commit", 1), len(seq) + 1)
+            finally:
+                RACE["armed"] = False
+            if RACE["fired"] is None:
+                acc.count("race_calls:%s" % point, RACE["count"])
+                break
+            acc.n += 1
+            case = {"scenario": [list(e) for e in seq], "hook_point": point, "call_index": k,
+                    "second_committer": RACE["fired"], "first_commit": status,
+                    "first_error": repr(err)[:160] if err else None}
+            if RACE["fired"] == "blocked":
+                acc.count("race_second_committer_waits")
+                obs = w.observe()
+                if status != "ok" or obs["M"][1] != new or obs[1]["tip"][1] != new:
+                    acc.violation("race:first-commit-fails-although-alone", dict(case, master=obs["M"], local=obs[1]["tip"]))
+                k += 1
+                continue
+            bstatus, berr, bnew = RACE["b"]
+            case["second_commit"] = bstatus
+            case["second_error"] = repr(berr)[:160] if berr else None
+            obs = w.observe()
+            hist = _lefthand(w, obs["M"][1])
+            acc.nt((seq, point, k))
+            bad = None
+            if status == "raised" and type(err).__name__ not in REFUSALS:
+                bad = "race:first-commit:%s:%s" % (type(err).__name__, _frame(err))
+            elif bstatus == "raised" and type(berr).__name__ not in REFUSALS:
+                bad = "race:second-commit:%s:%s" % (type(berr).__name__, _frame(berr))
+            elif bstatus == "ok" and bnew not in hist:
+                bad = "race:successful-commit-dropped-from-master-history"
+            elif status == "ok" and new not in hist:
+                bad = "race:successful-commit-not-in-master-history"
+            elif status == "ok" and obs[1]["tip"][1] != new:
+                bad = "race:successful-commit-local-tip-wrong"
+            elif bstatus == "ok" and obs[2]["tip"][1] != bnew:
+                bad = "race:second-commit-local-tip-wrong"
+            elif status == "raised" and obs[1]["tip"] != base[1]["tip"]:
+                bad = "race:refused-commit-changed-local-branch"
+            elif status == "raised" and obs["M"][1] != (bnew if bstatus == "ok" else base["M"][1]):
+                bad = "race:refused-commit-changed-master"
+            elif obs["M"][0] != len(hist):
+                bad = "race:master-revno-inconsistent"
+            if bad:
+                acc.violation(bad, dict(case, master=obs["M"], master_history=hist, local1=obs[1]["tip"], local2=obs[2]["tip"]))
+            else:
+                acc.outcomes.add(("race", point, status, type(err).__name__ if err else None, bstatus))
+                acc.count("race:%s:first-%s" % (point, status if status == "ok" else type(err).__name__))
+            k += 1
+        w.drop(snap)
+    return acc
+
+
 # ---- driver --------------------------------------------------------------------------------------------
 
 def search(ctx, events, depth, acc_all, label):
@@ -571,7 +692,9 @@ def run(ctx):
     if (a1.n, sorted(map(repr, a1.outcomes)), a1.succ) != (a2.n, sorted(map(repr, a2.outcomes)), a2.succ):
         raise HarnessError("non-deterministic transitions")
     facc = par.merge(par.pmap(_fault_work, FAULT_SCENARIOS, seed=ctx.seed, chunks_per_job=1))
-    total = par.merge([acc, facc])
+    ritems = [(seq, point) for seq in RACE_SCENARIOS for point in RACE_POINTS]
+    racc = par.merge(par.pmap(_race_work, ritems, seed=ctx.seed, chunks_per_job=1))
+    total = par.merge([acc, facc, racc])
     best = {}
     for sig, d in total.violations:
         k = (len(d.get("events", d.get("scenario", []))), d.get("op_index", 0), len(repr(d)))
@@ -583,6 +706,7 @@ def run(ctx):
         "each actor edits its own file, so updates never produce content conflicts",
         "tree pending merges after update/pull are taken over from the implementation (the statement speaks of branch tips only)",
         "faults are injected at master-side transport operations only (the checkout's own branch and repository are on disk)",
+        "race part: the second committer runs to completion at a call boundary of the first committer's master lock_write/last_revision_info; finer interleavings (inside one transport-level step) are not explored",
         "abstract state = reachable revision graph up to renaming, tips, bound flags, tree parents; file contents are not part of the key",
     ]
     trans = acc.counters.get("transitions", 0)
@@ -600,6 +724,8 @@ def run(ctx):
         "one_checkout_states": n1,
         "one_checkout_new_states_per_layer": layers1,
         "fault_runs": facc.n,
+        "race_runs": racc.n,
+        "race_outcomes": {k: v for k, v in racc.counters.items() if k.startswith("race")},
         "fault_outcomes": {k: v for k, v in facc.counters.items() if k.startswith("fault:")},
         "fault_free_master_ops": facc.counters.get("fault_free_master_ops", 0),
         "distinct_outcomes": sorted(map(repr, total.outcomes)),
@@ -612,6 +738,11 @@ def replay(ctx, data):
     d = data["first"]
     w = world()
     acc = par.Acc()
+    if "hook_point" in d:
+        a = _race_work([(tuple(tuple(e) for e in d["scenario"]), d["hook_point"])])
+        for sig, det in a.violations:
+            print("  ", sig, det)
+        return not a.violations
     if "scenario" in d:
         a = _fault_work([tuple(tuple(e) for e in d["scenario"])])
         for sig, det in a.violations:
